@@ -67,6 +67,7 @@ def runCursor (results : List (List (String × String) × List CRow)) (ops : Lis
   let step2 (acc : (Cursor × List String) × Bool) (op : Sexp) : (Cursor × List String) × Bool :=
     let ((c, outs), ended) := acc
     match op with
+    | .list [.atom "execbad"] => ((c, outs ++ ["EXC" ++ showState c]), ended)   -- an execute that raises is no step: nothing changes
     | .list [.atom "hopen"] => ((c, outs ++ ["[]" ++ showState c]), false)
     | .list [.atom "hnext"] =>
       let (c', e', rs) := c.heldNext ended
